@@ -3,7 +3,7 @@
     Riff/RiffGrammar (container specification), Riff/MuxView (what "put in" means). *)
 From Coq Require Import List ZArith Lia Bool.
 From Webp Require Import Base.Res Base.Bytes Riff.RiffGrammar Riff.DemuxModel Riff.DemuxTotal
-  Riff.MuxModel Riff.MuxView Riff.MuxProofs Riff.MuxRefuted.
+  Riff.MuxModel Riff.MuxView Riff.MuxProofs Riff.MuxRefuted Riff.MuxRoundtrip.
 From WebpGen Require Consts.
 Import ListNotations.
 Open Scope Z_scope.
@@ -34,6 +34,42 @@ Theorem C14_simple_layout_roundtrip_partial : forall fx dfx data fo m,
     end.
 Proof. exact simple_layout_roundtrip. Qed.
 Print Assumptions C14_simple_layout_roundtrip_partial.
+
+(** Extended layouts, EVERY history (induction over the call history + invariants of the
+    chunk loops): whenever the current Assemble succeeds and writes a VP8X file — a still
+    picture with metadata and/or ALPH, or an animation of any number of frames with or
+    without ALPH sub-chunks — all bytes are in range, the RIFF size field covers the file
+    exactly, and the demuxer returns exactly the view of what was put in (bitstreams and
+    alpha payloads byte for byte, offsets rounded down to even, durations, blend/dispose,
+    loop count, background, canvas, metadata).  Assemble never panics.
+    Partial only in that RiffGrammar.wf of these bytes is not proved (checked per run). *)
+Theorem C14_extended_roundtrip_partial : forall ops,
+  Forall op_ok ops ->
+  let m := run ops in
+  match assemble repaired m with
+  | Err _ => True
+  | Panic => False
+  | Ok bs =>
+    needs_vp8x repaired m = true ->
+    bytes_ok bs /\ rd32 (firstn 4 (skipn 4 bs)) + 8 = len bs /\
+    match parse true bs with
+    | Ok d => view_of_demux d = Some (view_of_mux m)
+    | _ => False
+    end
+  end.
+Proof. exact extended_roundtrip. Qed.
+Print Assumptions C14_extended_roundtrip_partial.
+
+Theorem C14_assemble_never_panics : forall m, assemble repaired m <> Panic.
+Proof. exact assemble_no_panic. Qed.
+Print Assumptions C14_assemble_never_panics.
+
+(** the hypotheses are satisfiable by a non-trivial history (kernel-evaluated) *)
+Theorem C14_extended_roundtrip_example :
+  Forall op_ok [AddFrame w_alph (opts 10 2 4); AddFrame w_vp8 (opts 20 0 0); SetLoopCount 3; SetXMP (Some [])] /\
+  needs_vp8x repaired (run [AddFrame w_alph (opts 10 2 4); AddFrame w_vp8 (opts 20 0 0); SetLoopCount 3; SetXMP (Some [])]) = true.
+Proof. split; [repeat (apply Forall_cons; [vm_compute; reflexivity|]); apply Forall_nil|vm_compute; reflexivity]. Qed.
+Print Assumptions C14_extended_roundtrip_example.
 
 (** Chunk write/read round trip with padding: whatever follows it, a chunk written by
     writeDataChunk is read back by ReadChunk as (id, size, payload), consuming exactly
